@@ -39,4 +39,19 @@ def serve : St → List Bool → List Nat
     | (s', .started) => if slow then 408 :: serve (step s' .fire).1 rest else 200 :: serve (step s' .finish).1 rest
     | (s', _) => 429 :: serve s' rest
 
+/-- finish every running handler (the abandoned ones return) -/
+def finishAll : Nat → St → St
+  | 0, s => s
+  | n + 1, s => finishAll n (step s .finish).1
+
+/-- token-level view: 0 = a handler that returns at once, 1 = a handler that outlives its timeout (still running),
+    2 = all handlers still running return now (no request) -/
+def serveTok : St → List Nat → List Nat
+  | _, [] => []
+  | s, 2 :: rest => serveTok (finishAll s.running s) rest
+  | s, t :: rest =>
+    match step s .call with
+    | (s', .started) => if t = 1 then 408 :: serveTok (step s' .fire).1 rest else 200 :: serveTok (step s' .finish).1 rest
+    | (s', _) => 429 :: serveTok s' rest
+
 end Fh.Model.TimeoutSem
